@@ -90,6 +90,23 @@ theorem stepThr_close {s s' : Sys} {t : Nat} {th : Thr} (hi : Inv s) (ht : Tear 
     (hget : s.thr[t]? = some th) (h : stepThr s t th = some s') : Close s' := by
   cases hpc : th.pc with
   | idle =>
+    cases hsl : s.seqLocked with
+    | false =>
+      simp [stepThr, hpc, hsl] at h; subst h
+      exact close_plain hc hget rfl rfl id rfl rfl rfl rfl (by rw [hpc]; rfl) rfl (by intro _ h; cases h)
+    | true =>
+      cases hl : s.lock with
+      | some x => simp [stepThr, hpc, hsl, hl] at h
+      | none =>
+        simp [stepThr, hpc, hsl, hl] at h; subst h
+        exact close_plain hc hget rfl rfl id rfl rfl rfl rfl (by rw [hpc]; rfl) rfl (by intro _ h; cases h)
+  | lkLoad =>
+    simp [stepThr, hpc] at h; subst h
+    exact close_plain hc hget rfl rfl id rfl rfl rfl rfl (by rw [hpc]; rfl) rfl (by intro _ h; cases h)
+  | lkStore =>
+    simp [stepThr, hpc] at h; subst h
+    exact close_plain hc hget rfl rfl id rfl rfl rfl rfl (by rw [hpc]; rfl) rfl (by intro _ h; cases h)
+  | lkHdr =>
     simp [stepThr, hpc] at h; subst h
     exact close_plain hc hget rfl rfl id rfl rfl rfl rfl (by rw [hpc]; rfl) rfl (by intro _ h; cases h)
   | incStore =>
